@@ -71,12 +71,28 @@ func NewValidationResponseHandler(
 	return &validationResponseHandler{dl, clock, ci, ce, siep, rs}
 }
 
+// hasValidator reports whether a stored response carries a validator that a
+// conditional request can be built from.
+func hasValidator(h http.Header) bool {
+	return h.Get("ETag") != "" || h.Get("Last-Modified") != ""
+}
+
 func (r *validationResponseHandler) HandleValidationResponse(
 	ctx RevalidationContext,
 	req *http.Request,
 	resp *http.Response,
 	err error,
 ) (*http.Response, error) {
+	if err == nil && req.Method == http.MethodGet && resp.StatusCode == http.StatusNotModified &&
+		!hasValidator(ctx.Stored.Data.Header) {
+		// The stored response has no validator, so the conditional headers of this
+		// request were the client's own and the 304 is about the client's copy: it is
+		// handed to the client, and says nothing about the stored response
+		// (RFC 9111 §4.3.4), which is neither freshened nor replaced by it.
+		CacheStatusMiss.ApplyTo(resp.Header)
+		r.l.LogCacheMiss(req, ctx.URLKey, ctx.ToMisc(nil))
+		return resp, nil
+	}
 	if err == nil && req.Method == http.MethodGet && resp.StatusCode == http.StatusNotModified {
 		// RFC 9111 §4.3.3 Handling Validation Responses (304 Not Modified)
 		// RFC 9111 §4.3.4 Freshening Stored Responses upon Validation
